@@ -425,7 +425,7 @@ impl Prop for C07 {
 // ---------------------------------------------------------------------------------------------
 // per-document enforcement: explicit-state search over document histories (stateright)
 
-pub const DOC_KINDS: [(&str, &str); 8] = [
+pub const DOC_KINDS: [(&str, &str); 9] = [
     ("plain", "a: 1\n"),
     ("anchor_alias", "p: &x 1\nq: *x\n"),
     ("nest3", "a:\n  b:\n    - c\n"),
@@ -434,6 +434,7 @@ pub const DOC_KINDS: [(&str, &str); 8] = [
     ("type_error_deep", "a:\n  b:\n    c: [[x]]\n"),
     ("null", "~\n"),
     ("two_anchors", "- &x 1\n- &y 2\n- *x\n"),
+    ("three_aliases_of_one_anchor", "a: &x 1\nb: *x\nc: *x\nd: *x\n"),
 ];
 
 #[derive(Clone, Debug, PartialEq, Eq, Hash)]
@@ -538,13 +539,31 @@ impl HistModel {
                 }
             }
         }
+        // the alias/anchor ratio heuristic: more than 2 aliases per anchor is refused (from the first alias on)
+        {
+            let mut b = unlimited();
+            b.enforce_alias_anchor_ratio = true;
+            b.alias_anchor_min_aliases = 1;
+            b.alias_anchor_ratio_multiplier = 2;
+            budgets.push(("alias_anchor_ratio<=2".to_string(), b));
+        }
         let solo = budgets
             .iter()
             .map(|(_, b)| (0..DOC_KINDS.len()).map(|k| read_verdicts(&stream_text(&[k as u8]), b.clone(), 4).unwrap_or_else(|p| vec![format!("panic:{}", p)])).collect())
             .collect();
-        let inner = budgets
+        // only the events counter sees the end-of-stream events; for every other budget a document in the middle of
+        // a stream must get exactly the verdict it gets alone
+        let inner: Vec<Vec<Vec<String>>> = budgets
             .iter()
-            .map(|(_, b)| (0..DOC_KINDS.len()).map(|k| read_verdicts(&stream_text(&[k as u8, 6]), b.clone(), 4).unwrap_or_else(|p| vec![format!("panic:{}", p)])).collect())
+            .enumerate()
+            .map(|(bi, (name, b))| {
+                if name.starts_with("events") {
+                    (0..DOC_KINDS.len()).map(|k| read_verdicts(&stream_text(&[k as u8, 6]), b.clone(), 4).unwrap_or_else(|p| vec![format!("panic:{}", p)])).collect()
+                } else {
+                    let s: &Vec<Vec<Vec<String>>> = &solo;
+                    s[bi].clone()
+                }
+            })
             .collect();
         HistModel { max_len, budgets, solo, inner }
     }
@@ -724,6 +743,23 @@ pub fn run(ctx: &Ctx) -> i32 {
         };
         for k in 1..=n {
             acc = acc.merge(c02::run_chunks(&sby[k], &per_shape));
+        }
+    }
+    // merge keys next to aliases in the same mapping (key / value bookkeeping of the enforcer), too large for the
+    // exhaustive bound
+    {
+        let p1 = Node::plain;
+        let m = |es: Vec<(Node, Node)>| Node::map(es);
+        let family = vec![
+            m(vec![(p1("d"), m(vec![(p1("t"), p1("1"))]).anchored("d")), (p1("n"), p1("foo").anchored("n")), (p1("svc"), m(vec![(p1("name"), Node::alias("n")), (p1("<<"), Node::alias("d"))]))]),
+            m(vec![(p1("base"), m(vec![(p1("k"), p1("1"))]).anchored("b")), (p1("d"), m(vec![(p1("<<"), Node::alias("b")), (p1("e"), p1("<<"))]))]),
+            m(vec![(p1("b"), m(vec![(p1("q"), p1("1"))]).anchored("b")), (p1("d"), m(vec![(p1("x"), Node::alias("b")), (p1("<<"), Node::alias("b"))]))]),
+            Node::seq(vec![p1("k").anchored("s"), m(vec![(Node::alias("s"), p1("1")), (p1("<<"), m(vec![(p1("q"), p1("1"))]).flowed())])]),
+            m(vec![(p1("a"), Node::seq(vec![p1("1")]).anchored("e")), (p1("b"), Node::alias("e")), (p1("c"), m(vec![(p1("u"), Node::alias("e")), (p1("<<"), m(vec![(p1("z"), p1("2"))]).flowed()), (p1("v"), Node::alias("e")), (p1("w"), p1("<<"))]))]),
+        ];
+        for t in family {
+            acc.class("merge_next_to_alias_family", 1);
+            per_tree(&mut acc, t);
         }
     }
     acc.samples.truncate(0);
